@@ -395,11 +395,25 @@ func c10cliRunCase(w *vx.W, t testing.TB, cs c09cliCase, mode c10sMode) (res c10
 	if w.Failed() || env.harnessErr != "" {
 		return
 	}
-	if mon.connView != mon.cfgConn {
-		return res, fmt.Sprintf("client advertised a connection window of %d, harness expected %d", mon.connView, mon.cfgConn)
-	}
-	if v, ok := env.cliSettings[SettingInitialWindowSize]; !ok || int64(v) != mon.cfgStr {
-		return res, fmt.Sprintf("client advertised INITIAL_WINDOW_SIZE %d (present=%v), harness expected %d", v, ok, mon.cfgStr)
+	if mode.enforce && !mode.leak {
+		// C11: the windows the client must enforce are the ones it advertised
+		// on the wire, whatever its configuration says: connection = the
+		// protocol default 65535 + every WINDOW_UPDATE(0) received so far
+		// (the preface one is an increment, RFC 9113 6.9.2), stream =
+		// SETTINGS_INITIAL_WINDOW_SIZE (65535 when absent). The generator
+		// sizes its pruning model from the configuration; events it got
+		// wrong are re-sized or skipped at run time against these views.
+		mon.cfgConn, mon.cfgStr = mon.connView, 65535
+		if v, ok := env.cliSettings[SettingInitialWindowSize]; ok {
+			mon.cfgStr = int64(v)
+		}
+	} else {
+		if mon.connView != mon.cfgConn {
+			return res, fmt.Sprintf("client advertised a connection window of %d, harness expected %d", mon.connView, mon.cfgConn)
+		}
+		if v, ok := env.cliSettings[SettingInitialWindowSize]; !ok || int64(v) != mon.cfgStr {
+			return res, fmt.Sprintf("client advertised INITIAL_WINDOW_SIZE %d (present=%v), harness expected %d", v, ok, mon.cfgStr)
+		}
 	}
 
 	checkReads := func(ctx string) {
@@ -621,6 +635,16 @@ func c10cliRunCase(w *vx.W, t testing.TB, cs c09cliCase, mode c10sMode) (res c10
 				expectFC = s
 			} else if s.srvOpen() && !mon.goaway {
 				sentInWindow = s
+				if mode.enforce && fl > 0 && fl == mon.connView {
+					// the frame takes the last byte of the connection window advertised on the wire
+					k := "D-fills-advertised-connection-window-exactly"
+					for _, o := range mon.streams {
+						if o != s && o.sent > 0 {
+							k = "D-fills-advertised-connection-window-exactly/unread-data-on-several-streams"
+						}
+					}
+					res.refundPaths[k] = true
+				}
 				if s.regular && !(r != nil && r.closed) && !s.cancelled {
 					s.accepted += int(ln)
 				}
@@ -765,8 +789,18 @@ func c10cliRunCase(w *vx.W, t testing.TB, cs c09cliCase, mode c10sMode) (res c10
 				}
 			}
 			if sentInWindow != nil {
-				if (sentInWindow.cliRST && sentInWindow.cliRSTCode == ErrCodeFlowControl) || (mon.goaway && mon.goawayCode == ErrCodeFlowControl) {
+				// Rejection is visible on the wire (RST_STREAM / GOAWAY) or, as the
+				// Transport does not flush its GOAWAY before closing, as the error
+				// its read loop ended with (the error every in-flight request and
+				// response body is failed with). Up to here the server has sent
+				// only DATA inside both windows the client advertised on the wire
+				// (an out-of-window frame ends the sequence), so a flow-control
+				// error has no other possible cause.
+				switch {
+				case (sentInWindow.cliRST && sentInWindow.cliRSTCode == ErrCodeFlowControl) || (mon.goaway && mon.goawayCode == ErrCodeFlowControl):
 					w.Failf(P+"enforce/in-window-data-rejected/after-"+mon.lastKind, "%s: DATA inside both advertised windows was answered with FLOW_CONTROL_ERROR", ctx)
+				case readerFC():
+					w.Failf(P+"enforce/in-window-data-rejected/connection-failed/after-"+mon.lastKind, "%s: DATA inside both advertised windows (after the frame the windows advertised on the wire, initial + WINDOW_UPDATEs - DATA, are: connection %d, stream %d) made the Transport fail the connection with FLOW_CONTROL_ERROR", ctx, mon.connView, sentInWindow.view)
 				}
 			}
 			if sentInConnWindow {
